@@ -68,7 +68,8 @@ func (l lin) mod8() (int64, bool) {
 }
 
 type linCtx struct {
-	data ssa.Value // the slice parameter
+	data  ssa.Value         // the slice parameter
+	subst map[ssa.Value]lin // a helper's parameter standing for its argument's form
 }
 
 func (lc *linCtx) of(v ssa.Value, depth int) (lin, bool) {
@@ -80,6 +81,21 @@ func (lc *linCtx) of(v ssa.Value, depth int) (lin, bool) {
 	}
 	if ln, ok := isBuiltinCall(v, "len"); ok && ln.Call.Args[0] == lc.data {
 		return lin{1, 0, 0}, true
+	}
+	if f, ok := lc.subst[v]; ok {
+		return f, true
+	}
+	// a pure one-line helper of the package over one integer (wholeWords(size) = size &^ 7): its return expression,
+	// with the argument's form in the place of the parameter
+	if call, ok := v.(*ssa.Call); ok && len(call.Call.Args) == 1 {
+		if h := origin(staticCallee(&call.Call)); h != nil && len(h.Blocks) == 1 && len(h.Params) == 1 && h.Signature.Results().Len() == 1 && isIntType(h.Params[0].Type()) {
+			if ret, ok := h.Blocks[0].Instrs[len(h.Blocks[0].Instrs)-1].(*ssa.Return); ok {
+				if af, ok := lc.of(call.Call.Args[0], depth+1); ok {
+					sub := &linCtx{data: lc.data, subst: map[ssa.Value]lin{h.Params[0]: af}}
+					return sub.of(ret.Results[0], depth+1)
+				}
+			}
+		}
 	}
 	bo, ok := v.(*ssa.BinOp)
 	if !ok {
@@ -266,7 +282,23 @@ func runC20(c *Ctx) {
 				}
 			}
 			if wp, ok := w.(*ssa.Phi); ok {
-				isWords := func(v ssa.Value) bool {
+				var isWords func(v ssa.Value) bool
+				isWords = func(v ssa.Value) bool {
+					// a result of a one-line helper over the length (nw, tail := split(len(data)), split(n) = n>>3, n&7)
+					if ex, ok := v.(*ssa.Extract); ok {
+						if call, ok := ex.Tuple.(*ssa.Call); ok && len(call.Call.Args) == 1 {
+							if ln, isLen := isBuiltinCall(call.Call.Args[0], "len"); isLen && ln.Call.Args[0] == dataV {
+								if h := origin(staticCallee(&call.Call)); h != nil && len(h.Blocks) == 1 && len(h.Params) == 1 {
+									if ret, ok := h.Blocks[0].Instrs[len(h.Blocks[0].Instrs)-1].(*ssa.Return); ok && ex.Index < len(ret.Results) {
+										if bo, ok := ret.Results[ex.Index].(*ssa.BinOp); ok && bo.X == ssa.Value(h.Params[0]) {
+											return (bo.Op == token.SHR && isConstInt(bo.Y, 3)) || (bo.Op == token.QUO && isConstInt(bo.Y, 8))
+										}
+									}
+								}
+							}
+						}
+						return false
+					}
 					bo, ok := v.(*ssa.BinOp)
 					if !ok {
 						return false
@@ -277,9 +309,21 @@ func runC20(c *Ctx) {
 					}
 					return (bo.Op == token.SHR && isConstInt(bo.Y, 3)) || (bo.Op == token.QUO && isConstInt(bo.Y, 8))
 				}
+				// counting up by one from 0, `w != nw` ends the loop exactly where `w < nw` would
+				upByOne := true
+				for i, e := range wp.Edges {
+					if wp.Block().Dominates(wp.Block().Preds[i]) {
+						if bo, ok := e.(*ssa.BinOp); !ok || bo.Op != token.ADD || bo.X != ssa.Value(wp) || !isConstInt(bo.Y, 1) {
+							upByOne = false
+						}
+					} else if !isConstInt(e, 0) {
+						upByOne = false
+					}
+				}
+				boundOp := func(op token.Token) bool { return op == token.LSS || (op == token.NEQ && upByOne) }
 				below := false
 				for _, cm := range cmpsAt(at) {
-					if cm.X == w && cm.Op == token.LSS && isWords(cm.Y) {
+					if cm.X == w && boundOp(cm.Op) && isWords(cm.Y) {
 						below = true
 					}
 				}
@@ -300,7 +344,7 @@ func runC20(c *Ctx) {
 									kb, okb := constInt(b)
 									return a == b || (oka && okb && ka == kb)
 								}
-								if cm, ok := edgeCmp(iff, si); ok && sameVal(cm.X, e) && cm.Op == token.LSS && isWords(cm.Y) {
+								if cm, ok := edgeCmp(iff, si); ok && sameVal(cm.X, e) && boundOp(cm.Op) && isWords(cm.Y) {
 									edgeOK = true
 								}
 							}
